@@ -1,28 +1,10 @@
-//! Child module of `mpmc` (only with `--cfg multiqueue2_verif`).
+//! Child module of `broadcast` (only with `--cfg multiqueue2_verif`).
 #![allow(dead_code)]
 
-use super::{MPMCFutReceiver, MPMCFutSender};
-use crate::countedindex::Index;
-use crate::multiqueue::{futures_multiqueue_with, MPMC};
-
-/// `mpmc_fut_queue` with explicit spin counts (the public constructor only offers the
-/// defaults of 50/50, which put a 100-iteration loop in front of every park).
-pub fn mpmc_fut_queue_with<T>(
-    capacity: Index,
-    try_spins: usize,
-    yield_spins: usize,
-) -> (MPMCFutSender<T>, MPMCFutReceiver<T>) {
-    let (isend, irecv) = futures_multiqueue_with::<MPMC<T>, T>(capacity, try_spins, yield_spins);
-    (
-        MPMCFutSender { sender: isend },
-        MPMCFutReceiver { receiver: irecv },
-    )
-}
-
-use super::MPMCSender;
+use super::*;
 use crate::multiqueue::verif_access::{raise_epoch_signal, QueueView};
 
-impl<T> MPMCSender<T> {
+impl<T: Clone> BroadcastSender<T> {
     pub fn verif_view(&self) -> QueueView {
         self.sender.verif_queue().verif_view()
     }
@@ -34,7 +16,7 @@ impl<T> MPMCSender<T> {
     }
 }
 
-impl<T> MPMCFutSender<T> {
+impl<T: Clone> BroadcastFutSender<T> {
     pub fn verif_view(&self) -> QueueView {
         self.sender.verif_queue().verif_view()
     }
